@@ -142,284 +142,8 @@ func TestC05(t *testing.T) {
 		r.Rule = "workflow shapes: 1-5 jobs with a random needs DAG (scalar/list form, mixed case), per job 0-5 steps with ids placed at random (ids may coincide up to case across jobs), declared job outputs, a matrix (rows, include-only keys, exclude, or a row / include / whole matrix given by an expression), workflow_call and/or workflow_dispatch inputs, workflow_call secrets (declared / section absent) and outputs. One reference probe per line at positions where the context is available: steps.<id>[.outputs.x|.outcome|.conclusion] in run/env/if/with of steps, in job outputs and environment.url; needs.<job>[.result|.outputs.<n>]; matrix.<key>; inputs.<n>; secrets.<n>; jobs.<job>.outputs.<n>; defined and undefined names, dot and ['x'] form, random case. Oracle: scope model built with the shape. Non-trivial = shape with >= 2 jobs or >= 2 steps and at least one defined and one undefined probe; distinct = YAML text."
 		r.Assumptions = []string{"probes are only placed where GitHub's availability table allows the context", "nested matrix value typing and jobs.<id>.result are not asserted", "inputs probes only when at least one input is declared"}
 		r.Check(t, "shapes", hx.N(2500, 60000), func(rt *rapid.T) {
-			g := &c05gen{t: rt, y: &ybuf{}}
-			y := g.y
-			// ----- header
-			hasCall := g.b("call")
-			hasDispatch := g.b("dispatch")
-			var inputs, secrets, wfOutputs []string
-			secretsDeclared := false
-			y.ln("on:")
-			if !hasCall && !hasDispatch {
-				y.ln("  push:")
-			}
-			if hasDispatch {
-				y.ln("  workflow_dispatch:")
-				if g.b("dinputs") {
-					y.ln("    inputs:")
-					for k := 0; k < g.i("ndin", 1, 2); k++ {
-						n := fmt.Sprintf("din%d", k)
-						inputs = append(inputs, n)
-						y.ln("      %s:", g.spell(n))
-						y.ln("        type: string")
-					}
-				}
-			}
-			type pendingOut struct{ name string }
-			var outLines []func(jobs []*c05job)
-			if hasCall {
-				y.ln("  workflow_call:")
-				if g.b("cinputs") {
-					y.ln("    inputs:")
-					for k := 0; k < g.i("ncin", 1, 2); k++ {
-						n := fmt.Sprintf("cin%d", k)
-						inputs = append(inputs, n)
-						y.ln("      %s:", g.spell(n))
-						y.ln("        type: %s", rapid.SampledFrom([]string{"string", "number", "boolean"}).Draw(rt, "cty"))
-					}
-				}
-				if g.b("csecrets") {
-					secretsDeclared = true
-					y.ln("    secrets:")
-					for k := 0; k < g.i("ncs", 1, 2); k++ {
-						n := fmt.Sprintf("tok%d", k)
-						secrets = append(secrets, n)
-						y.ln("      %s:", g.spell(n))
-						y.ln("        required: false")
-					}
-				}
-			}
-			// ----- jobs (decide shapes first; workflow_call outputs need them)
-			nj := g.i("njobs", 1, 5)
-			jobs := make([]*c05job, nj)
-			for i := range jobs {
-				j := &c05job{id: fmt.Sprintf("job%d", i)}
-				for k := 0; k < i; k++ {
-					if g.i("need", 0, 2) == 0 {
-						j.needs = append(j.needs, k)
-					}
-				}
-				j.isCall = g.i("iscall", 0, 5) == 0
-				if !j.isCall {
-					for k := 0; k < g.i("nout", 0, 2); k++ {
-						j.outputs = append(j.outputs, fmt.Sprintf("out%d", k))
-					}
-					ns := g.i("nsteps", 0, 5)
-					for k := 0; k < ns; k++ {
-						id := ""
-						if g.i("hasid", 0, 2) > 0 {
-							id = fmt.Sprintf("s%d", k) // same ids in every job: equal across jobs
-							if g.b("jobsuffix") {
-								id = fmt.Sprintf("s%dj%d", k, i)
-							}
-						}
-						j.stepIDs = append(j.stepIDs, id)
-					}
-				}
-				// matrix
-				if g.i("hasmatrix", 0, 2) > 0 {
-					j.hasMat = true
-					switch g.i("mform", 0, 6) {
-					case 0:
-						j.mopen = true
-						j.matrixY = []string{"matrix: ${{ fromJSON(github.event.client_payload.m) }}"}
-					default:
-						j.matrixY = []string{"matrix:"}
-						j.mkeys = append(j.mkeys, "os")
-						j.matrixY = append(j.matrixY, "  "+g.spell("os")+": [linux, mac]")
-						if g.b("row2") {
-							j.mkeys = append(j.mkeys, "ver")
-							if g.i("rowexpr", 0, 3) == 0 {
-								j.matrixY = append(j.matrixY, "  ver: ${{ fromJSON(github.event.client_payload.v) }}")
-							} else {
-								j.matrixY = append(j.matrixY, "  ver: [1, 2]")
-							}
-						}
-						if g.b("row3") {
-							j.mkeys = append(j.mkeys, "cfg")
-							j.matrixY = append(j.matrixY, "  cfg: [{a: 1}, {a: 2}]")
-						}
-						switch g.i("inc", 0, 4) {
-						case 0:
-							j.mkeys = append(j.mkeys, "extra")
-							j.matrixY = append(j.matrixY, "  include:", "    - os: linux", "      "+g.spell("extra")+": yes")
-						case 1:
-							j.mopen = true
-							j.matrixY = append(j.matrixY, "  include: ${{ fromJSON(github.event.client_payload.i) }}")
-						case 2:
-							j.mopen = true
-							j.mkeys = append(j.mkeys, "extra")
-							j.matrixY = append(j.matrixY, "  include:", "    - os: linux", "      extra: yes", "    - ${{ fromJSON(github.event.client_payload.e) }}")
-						}
-						if g.b("exc") {
-							j.matrixY = append(j.matrixY, "  exclude:", "    - os: mac")
-						}
-					}
-				}
-				jobs[i] = j
-			}
-			// workflow_call outputs with jobs.* probes
-			if hasCall && g.b("couts") {
-				y.ln("    outputs:")
-				for k := 0; k < g.i("ncout", 1, 3); k++ {
-					n := fmt.Sprintf("wout%d", k)
-					wfOutputs = append(wfOutputs, n)
-					y.ln("      %s:", n)
-					// pick a job (existing or not) and an output (declared or not)
-					ji := g.i("pj", 0, nj)
-					var expr, kind, name string
-					defined := false
-					if ji == nj {
-						expr = g.ref("jobs", "nojob", ".outputs.x")
-						kind, name = "jobs/unknown-job", "nojob"
-					} else {
-						j := jobs[ji]
-						if len(j.outputs) > 0 && g.b("declout") {
-							o := j.outputs[g.i("po", 0, len(j.outputs)-1)]
-							expr = "jobs." + g.spell(j.id) + ".outputs." + g.spell(o)
-							kind, name, defined = "jobs/declared-output", o, true
-						} else if j.isCall {
-							expr = "jobs." + g.spell(j.id) + ".outputs.anything"
-							kind, name, defined = "jobs/output-of-called-workflow", "anything", true
-						} else {
-							expr = "jobs." + g.spell(j.id) + ".outputs.nosuch"
-							kind, name = "jobs/undeclared-output", "nosuch"
-						}
-					}
-					ln := y.ln("        value: ${{ %s }}", expr)
-					g.probe(ln, expr, kind, name, defined)
-				}
-			}
-			_ = outLines
-			// ----- emit jobs
-			autoSecrets := []string{"github_token", "actions_step_debug", "actions_runner_debug"}
-			y.ln("jobs:")
-			for i, j := range jobs {
-				y.ln("  %s:", g.spell(j.id))
-				if len(j.needs) == 1 && g.b("needsscalar") {
-					y.ln("    needs: %s", g.spell(jobs[j.needs[0]].id))
-				} else if len(j.needs) > 0 {
-					var ns []string
-					for _, k := range j.needs {
-						ns = append(ns, g.spell(jobs[k].id))
-					}
-					y.ln("    needs: [%s]", strings.Join(ns, ", "))
-				}
-				if j.hasMat {
-					y.ln("    strategy:")
-					for _, l := range j.matrixY {
-						y.ln("      %s", l)
-					}
-				}
-				// job-level probes go to job env (needs, matrix, inputs, secrets available there) or to with: for call jobs
-				jobProbes := func(indent, keyPrefix string) {
-					np := g.i("njobprobes", 0, 4)
-					for k := 0; k < np; k++ {
-						expr, kind, name, defined := g.jobLevelProbe(jobs, i, inputs, secrets, secretsDeclared, hasCall, autoSecrets)
-						if expr == "" {
-							continue
-						}
-						ln := y.ln("%s%s%d: ${{ %s }}", indent, keyPrefix, k, expr)
-						g.probe(ln, expr, kind, name, defined)
-					}
-				}
-				if j.isCall {
-					y.ln("    uses: owner/repo/.github/workflows/w.yml@v1")
-					y.ln("    with:")
-					y.ln("      fixed: v")
-					jobProbes("      ", "p")
-					continue
-				}
-				y.ln("    runs-on: ubuntu-latest")
-				y.ln("    env:")
-				y.ln("      FIXED: v")
-				jobProbes("      ", "P")
-				// outputs + environment: see all steps
-				allIDs := []string{}
-				for _, id := range j.stepIDs {
-					if id != "" {
-						allIDs = append(allIDs, id)
-					}
-				}
-				if len(j.outputs) > 0 {
-					y.ln("    outputs:")
-					for _, o := range j.outputs {
-						expr, kind, name, defined := g.stepsProbe(allIDs, nil, "", "job-outputs")
-						ln := y.ln("      %s: ${{ %s }}", g.spell(o), expr)
-						g.probe(ln, expr, kind, name, defined)
-					}
-				}
-				if g.b("environment") {
-					y.ln("    environment:")
-					y.ln("      name: prod")
-					expr, kind, name, defined := g.stepsProbe(allIDs, nil, "", "environment-url")
-					ln := y.ln("      url: https://example.com/${{ %s }}", expr)
-					g.probe(ln, expr, kind, name, defined)
-				}
-				y.ln("    steps:")
-				if len(j.stepIDs) == 0 {
-					y.ln("      - run: echo")
-				}
-				for k, id := range j.stepIDs {
-					var earlier, later []string
-					for q, x := range j.stepIDs {
-						if x == "" {
-							continue
-						}
-						if q < k {
-							earlier = append(earlier, x)
-						} else if q > k {
-							later = append(later, x)
-						}
-					}
-					first := true
-					item := func(format string, args ...any) int {
-						pre := "        "
-						if first {
-							pre = "      - "
-							first = false
-						}
-						return y.ln(pre+format, args...)
-					}
-					pos := rapid.SampledFrom([]string{"run", "env", "if", "with", "name"}).Draw(rt, "pos")
-					expr, kind, name, defined := g.stepsProbe(earlier, later, id, "step-"+pos)
-					if g.i("othersctx", 0, 3) == 0 {
-						if e2, k2, n2, d2 := g.jobLevelProbe(jobs, i, inputs, secrets, secretsDeclared, hasCall, autoSecrets); e2 != "" {
-							expr, kind, name, defined = e2, k2+"@step", n2, d2
-						}
-					}
-					if id != "" {
-						item("id: %s", g.spell(id))
-					}
-					if pos == "if" && strings.HasPrefix(kind, "secrets/") {
-						pos = "run" // the secrets context is not available in jobs.<job_id>.steps.if
-					}
-					switch pos {
-					case "run":
-						ln := item("run: echo ${{ %s }}", expr)
-						g.probe(ln, expr, kind, name, defined)
-					case "env":
-						item("run: echo")
-						item("env:")
-						ln := item("  V: ${{ %s }}", expr)
-						g.probe(ln, expr, kind, name, defined)
-					case "if":
-						item("run: echo")
-						ln := item("if: ${{ %s }}", expr)
-						g.probe(ln, expr, kind, name, defined)
-					case "name":
-						item("run: echo")
-						ln := item("name: n ${{ %s }}", expr)
-						g.probe(ln, expr, kind, name, defined)
-					default:
-						item("uses: owner/unknown-action@v1")
-						item("with:")
-						ln := item("  arg: ${{ %s }}", expr)
-						g.probe(ln, expr, kind, name, defined)
-					}
-				}
-			}
-			c := &c05Case{YAML: y.b.String(), Probes: g.probes}
+			c, nj, maxSteps := genC05Shape(rt, nil)
+			g := &c05gen{probes: c.Probes}
 			r.Eval()
 			nd, nu := 0, 0
 			for _, p := range g.probes {
@@ -430,12 +154,6 @@ func TestC05(t *testing.T) {
 				}
 				r.Class(p.Kind + map[bool]string{true: "/defined", false: "/undefined"}[p.Defined])
 			}
-			maxSteps := 0
-			for _, j := range jobs {
-				if len(j.stepIDs) > maxSteps {
-					maxSteps = len(j.stepIDs)
-				}
-			}
 			if (nj >= 2 || maxSteps >= 2) && nd > 0 && nu > 0 {
 				r.NT(c.YAML)
 			}
@@ -445,6 +163,298 @@ func TestC05(t *testing.T) {
 			}
 		})
 	})
+}
+
+// genC05Shape draws a workflow shape with reference probes and the scope model's verdicts.
+func genC05Shape(rt *rapid.T, extra func(g *c05gen)) (*c05Case, int, int) {
+	g := &c05gen{t: rt, y: &ybuf{}}
+	y := g.y
+	// ----- header
+	hasCall := g.b("call")
+	hasDispatch := g.b("dispatch")
+	var inputs, secrets, wfOutputs []string
+	secretsDeclared := false
+	y.ln("on:")
+	if !hasCall && !hasDispatch {
+		y.ln("  push:")
+	}
+	if hasDispatch {
+		y.ln("  workflow_dispatch:")
+		if g.b("dinputs") {
+			y.ln("    inputs:")
+			for k := 0; k < g.i("ndin", 1, 2); k++ {
+				n := fmt.Sprintf("din%d", k)
+				inputs = append(inputs, n)
+				y.ln("      %s:", g.spell(n))
+				y.ln("        type: string")
+			}
+		}
+	}
+	type pendingOut struct{ name string }
+	var outLines []func(jobs []*c05job)
+	if hasCall {
+		y.ln("  workflow_call:")
+		if g.b("cinputs") {
+			y.ln("    inputs:")
+			for k := 0; k < g.i("ncin", 1, 2); k++ {
+				n := fmt.Sprintf("cin%d", k)
+				inputs = append(inputs, n)
+				y.ln("      %s:", g.spell(n))
+				y.ln("        type: %s", rapid.SampledFrom([]string{"string", "number", "boolean"}).Draw(rt, "cty"))
+			}
+		}
+		if g.b("csecrets") {
+			secretsDeclared = true
+			y.ln("    secrets:")
+			for k := 0; k < g.i("ncs", 1, 2); k++ {
+				n := fmt.Sprintf("tok%d", k)
+				secrets = append(secrets, n)
+				y.ln("      %s:", g.spell(n))
+				y.ln("        required: false")
+			}
+		}
+	}
+	// ----- jobs (decide shapes first; workflow_call outputs need them)
+	nj := g.i("njobs", 1, 5)
+	jobs := make([]*c05job, nj)
+	for i := range jobs {
+		j := &c05job{id: fmt.Sprintf("job%d", i)}
+		for k := 0; k < i; k++ {
+			if g.i("need", 0, 2) == 0 {
+				j.needs = append(j.needs, k)
+			}
+		}
+		j.isCall = g.i("iscall", 0, 5) == 0
+		if !j.isCall {
+			for k := 0; k < g.i("nout", 0, 2); k++ {
+				j.outputs = append(j.outputs, fmt.Sprintf("out%d", k))
+			}
+			ns := g.i("nsteps", 0, 5)
+			for k := 0; k < ns; k++ {
+				id := ""
+				if g.i("hasid", 0, 2) > 0 {
+					id = fmt.Sprintf("s%d", k) // same ids in every job: equal across jobs
+					if g.b("jobsuffix") {
+						id = fmt.Sprintf("s%dj%d", k, i)
+					}
+				}
+				j.stepIDs = append(j.stepIDs, id)
+			}
+		}
+		// matrix
+		if g.i("hasmatrix", 0, 2) > 0 {
+			j.hasMat = true
+			switch g.i("mform", 0, 6) {
+			case 0:
+				j.mopen = true
+				j.matrixY = []string{"matrix: ${{ fromJSON(github.event.client_payload.m) }}"}
+			default:
+				j.matrixY = []string{"matrix:"}
+				j.mkeys = append(j.mkeys, "os")
+				j.matrixY = append(j.matrixY, "  "+g.spell("os")+": [linux, mac]")
+				if g.b("row2") {
+					j.mkeys = append(j.mkeys, "ver")
+					if g.i("rowexpr", 0, 3) == 0 {
+						j.matrixY = append(j.matrixY, "  ver: ${{ fromJSON(github.event.client_payload.v) }}")
+					} else {
+						j.matrixY = append(j.matrixY, "  ver: [1, 2]")
+					}
+				}
+				if g.b("row3") {
+					j.mkeys = append(j.mkeys, "cfg")
+					j.matrixY = append(j.matrixY, "  cfg: [{a: 1}, {a: 2}]")
+				}
+				switch g.i("inc", 0, 4) {
+				case 0:
+					j.mkeys = append(j.mkeys, "extra")
+					j.matrixY = append(j.matrixY, "  include:", "    - os: linux", "      "+g.spell("extra")+": yes")
+				case 1:
+					j.mopen = true
+					j.matrixY = append(j.matrixY, "  include: ${{ fromJSON(github.event.client_payload.i) }}")
+				case 2:
+					j.mopen = true
+					j.mkeys = append(j.mkeys, "extra")
+					j.matrixY = append(j.matrixY, "  include:", "    - os: linux", "      extra: yes", "    - ${{ fromJSON(github.event.client_payload.e) }}")
+				}
+				if g.b("exc") {
+					j.matrixY = append(j.matrixY, "  exclude:", "    - os: mac")
+				}
+			}
+		}
+		jobs[i] = j
+	}
+	// workflow_call outputs with jobs.* probes
+	if hasCall && g.b("couts") {
+		y.ln("    outputs:")
+		for k := 0; k < g.i("ncout", 1, 3); k++ {
+			n := fmt.Sprintf("wout%d", k)
+			wfOutputs = append(wfOutputs, n)
+			y.ln("      %s:", n)
+			// pick a job (existing or not) and an output (declared or not)
+			ji := g.i("pj", 0, nj)
+			var expr, kind, name string
+			defined := false
+			if ji == nj {
+				expr = g.ref("jobs", "nojob", ".outputs.x")
+				kind, name = "jobs/unknown-job", "nojob"
+			} else {
+				j := jobs[ji]
+				if len(j.outputs) > 0 && g.b("declout") {
+					o := j.outputs[g.i("po", 0, len(j.outputs)-1)]
+					expr = "jobs." + g.spell(j.id) + ".outputs." + g.spell(o)
+					kind, name, defined = "jobs/declared-output", o, true
+				} else if j.isCall {
+					expr = "jobs." + g.spell(j.id) + ".outputs.anything"
+					kind, name, defined = "jobs/output-of-called-workflow", "anything", true
+				} else {
+					expr = "jobs." + g.spell(j.id) + ".outputs.nosuch"
+					kind, name = "jobs/undeclared-output", "nosuch"
+				}
+			}
+			ln := y.ln("        value: ${{ %s }}", expr)
+			g.probe(ln, expr, kind, name, defined)
+		}
+	}
+	_ = outLines
+	// ----- emit jobs
+	autoSecrets := []string{"github_token", "actions_step_debug", "actions_runner_debug"}
+	y.ln("jobs:")
+	for i, j := range jobs {
+		y.ln("  %s:", g.spell(j.id))
+		if len(j.needs) == 1 && g.b("needsscalar") {
+			y.ln("    needs: %s", g.spell(jobs[j.needs[0]].id))
+		} else if len(j.needs) > 0 {
+			var ns []string
+			for _, k := range j.needs {
+				ns = append(ns, g.spell(jobs[k].id))
+			}
+			y.ln("    needs: [%s]", strings.Join(ns, ", "))
+		}
+		if j.hasMat {
+			y.ln("    strategy:")
+			for _, l := range j.matrixY {
+				y.ln("      %s", l)
+			}
+		}
+		// job-level probes go to job env (needs, matrix, inputs, secrets available there) or to with: for call jobs
+		jobProbes := func(indent, keyPrefix string) {
+			np := g.i("njobprobes", 0, 4)
+			for k := 0; k < np; k++ {
+				expr, kind, name, defined := g.jobLevelProbe(jobs, i, inputs, secrets, secretsDeclared, hasCall, autoSecrets)
+				if expr == "" {
+					continue
+				}
+				ln := y.ln("%s%s%d: ${{ %s }}", indent, keyPrefix, k, expr)
+				g.probe(ln, expr, kind, name, defined)
+			}
+		}
+		if j.isCall {
+			y.ln("    uses: owner/repo/.github/workflows/w.yml@v1")
+			y.ln("    with:")
+			y.ln("      fixed: v")
+			jobProbes("      ", "p")
+			continue
+		}
+		y.ln("    runs-on: ubuntu-latest")
+		y.ln("    env:")
+		y.ln("      FIXED: v")
+		jobProbes("      ", "P")
+		// outputs + environment: see all steps
+		allIDs := []string{}
+		for _, id := range j.stepIDs {
+			if id != "" {
+				allIDs = append(allIDs, id)
+			}
+		}
+		if len(j.outputs) > 0 {
+			y.ln("    outputs:")
+			for _, o := range j.outputs {
+				expr, kind, name, defined := g.stepsProbe(allIDs, nil, "", "job-outputs")
+				ln := y.ln("      %s: ${{ %s }}", g.spell(o), expr)
+				g.probe(ln, expr, kind, name, defined)
+			}
+		}
+		if g.b("environment") {
+			y.ln("    environment:")
+			y.ln("      name: prod")
+			expr, kind, name, defined := g.stepsProbe(allIDs, nil, "", "environment-url")
+			ln := y.ln("      url: https://example.com/${{ %s }}", expr)
+			g.probe(ln, expr, kind, name, defined)
+		}
+		y.ln("    steps:")
+		if len(j.stepIDs) == 0 {
+			y.ln("      - run: echo")
+		}
+		for k, id := range j.stepIDs {
+			var earlier, later []string
+			for q, x := range j.stepIDs {
+				if x == "" {
+					continue
+				}
+				if q < k {
+					earlier = append(earlier, x)
+				} else if q > k {
+					later = append(later, x)
+				}
+			}
+			first := true
+			item := func(format string, args ...any) int {
+				pre := "        "
+				if first {
+					pre = "      - "
+					first = false
+				}
+				return y.ln(pre+format, args...)
+			}
+			pos := rapid.SampledFrom([]string{"run", "env", "if", "with", "name"}).Draw(rt, "pos")
+			expr, kind, name, defined := g.stepsProbe(earlier, later, id, "step-"+pos)
+			if g.i("othersctx", 0, 3) == 0 {
+				if e2, k2, n2, d2 := g.jobLevelProbe(jobs, i, inputs, secrets, secretsDeclared, hasCall, autoSecrets); e2 != "" {
+					expr, kind, name, defined = e2, k2+"@step", n2, d2
+				}
+			}
+			if id != "" {
+				item("id: %s", g.spell(id))
+			}
+			if pos == "if" && strings.HasPrefix(kind, "secrets/") {
+				pos = "run" // the secrets context is not available in jobs.<job_id>.steps.if
+			}
+			switch pos {
+			case "run":
+				ln := item("run: echo ${{ %s }}", expr)
+				g.probe(ln, expr, kind, name, defined)
+			case "env":
+				item("run: echo")
+				item("env:")
+				ln := item("  V: ${{ %s }}", expr)
+				g.probe(ln, expr, kind, name, defined)
+			case "if":
+				item("run: echo")
+				ln := item("if: ${{ %s }}", expr)
+				g.probe(ln, expr, kind, name, defined)
+			case "name":
+				item("run: echo")
+				ln := item("name: n ${{ %s }}", expr)
+				g.probe(ln, expr, kind, name, defined)
+			default:
+				item("uses: owner/unknown-action@v1")
+				item("with:")
+				ln := item("  arg: ${{ %s }}", expr)
+				g.probe(ln, expr, kind, name, defined)
+			}
+		}
+	}
+
+	if extra != nil {
+		extra(g)
+	}
+	maxSteps := 0
+	for _, j := range jobs {
+		if len(j.stepIDs) > maxSteps {
+			maxSteps = len(j.stepIDs)
+		}
+	}
+	return &c05Case{YAML: y.b.String(), Probes: g.probes}, nj, maxSteps
 }
 
 // stepsProbe draws a steps.* reference. visible = ids in scope; hidden = ids of the same job not in
